@@ -16,7 +16,7 @@ func main() {
 		return
 	}
 	ev.Main("C17", "exploration",
-		"Part 1: generated stores of 8-15 blobs (four templates: files/bytes trees, deletions, split directories, decoys incl. a directory naming a ref in fileName and a share claim used as a via blob; share claims transitive or not, expired/far-expiry/none, deleted, undeleted, foreign authType, search); EVERY request chain via=b1..bk + target with k<=3 over the store's blobs plus one unknown ref is issued with GET and HEAD against the share handler over the live index and over an index re-opened on a copy of its rows (POST/PUT/DELETE and assemble=1 on samples), and compared with a reachability model written from the statement; distinct = (store, chain) with a share claim at the head. Expiry stores (one file, 10-12 hand-made share claims whose expires lies at/around the Unix epoch, year 0/1, the int32 and int64-nanosecond limits, year 9999, with zone offsets, fractional seconds, lower-case t/z, second 60, non-dates, seeded instants): chains up to 2 via blobs exhaustively under the real clock, then every share under controlled clocks (verif hook on schema's clock) 1 ns and 1 s before and after each expiry instant and under fixed clocks from year 1 to year 10000; distinct = (store, index mode, share, clock). Multi-deleter stores: one file under eight share claims, each carrying a forest of delete claims (two or three deleters with the newest / the oldest / all of them deleted again, an undeletion undone, a late delete claim dated before an undone one, a delete claim with a broken signature, a seeded random forest to depth 3), judged by the delete.md fixpoint; chains headed by a share exhaustive to 2 via blobs; distinct = (store, chain). Request forms: the reachable chains, the chains refused at the head or through a decoy and 150 seeded random chains of every generic store re-issued percent-encoded, with a satisfiable Range, with a file name after the ref, with empty / blank / garbage via elements, with a repeated via parameter, as POST with via in the body, with assemble=1 on non-files (an answer with content needs a valid reading of the request). Part 2: one child process per generated server configuration (plus configurations whose root handler is switched to stealth in the low-level config) x credential-requiring auth mode; each child process begins cold (its first requests, before any authenticated or discovery request and before the process token exists, are the unauthenticated GET variants incl. Upgrade: websocket with no / an empty / a wrong authtoken on every protected row; must be refused); then every installed prefix x endpoint table x method is requested without credentials and with eleven kinds of wrong/partial credentials (must be refused - the stealth root may instead answer harmlessly, i.e. with nothing of what the authenticated discovery document says -, leak no canary, change no state) and with credentials (must not be refused for lack of auth); distinct = (configuration, method, path)",
+		"Part 1: generated stores of 8-15 blobs (four templates: files/bytes trees, deletions, split directories, decoys incl. a directory naming a ref in fileName and a share claim used as a via blob; share claims transitive or not, expired/far-expiry/none, deleted, undeleted, foreign authType, search); EVERY request chain via=b1..bk + target with k<=3 over the store's blobs plus one unknown ref is issued with GET and HEAD against the share handler over the live index and over an index re-opened on a copy of its rows (POST/PUT/DELETE and assemble=1 on samples), and compared with a reachability model written from the statement; distinct = (store, chain) with a share claim at the head. Expiry stores (one file, 10-12 hand-made share claims whose expires lies at/around the Unix epoch, year 0/1, the int32 and int64-nanosecond limits, year 9999, with zone offsets, fractional seconds, lower-case t/z, second 60, non-dates, seeded instants): chains up to 2 via blobs exhaustively under the real clock, then every share under controlled clocks (verif hook on schema's clock) 1 ns and 1 s before and after each expiry instant and under fixed clocks from year 1 to year 10000; distinct = (store, index mode, share, clock). Multi-deleter stores: one file under eight share claims, each carrying a forest of delete claims (two or three deleters with the newest / the oldest / all of them deleted again, an undeletion undone, a late delete claim dated before an undone one, a delete claim with a broken signature, a seeded random forest to depth 3), judged by the delete.md fixpoint; chains headed by a share exhaustive to 2 via blobs; distinct = (store, chain). Stepwise deletion histories: three shares of one file whose delete claims arrive one at a time on a live index (two DISTINCT delete claims of one share with the SAME claimDate - differing in an extra field or in the signature time - of which the last / the first arrived is deleted again, then both; a seeded forest to depth 3 and a seeded tail with claim dates from a small pool), every share (claim, target, one link on; GET and HEAD) judged by the delete.md fixpoint after EVERY arrival over the live index and over an index re-opened on the rows of that moment; distinct = (store, step, share). Request forms: the reachable chains, the chains refused at the head or through a decoy and 150 seeded random chains of every generic store re-issued percent-encoded, with a satisfiable Range, with a file name after the ref, with empty / blank / garbage via elements, with a repeated via parameter, as POST with via in the body, with assemble=1 on non-files (an answer with content needs a valid reading of the request). Part 2: one child process per generated server configuration (plus configurations whose root handler is switched to stealth in the low-level config) x credential-requiring auth mode; each child process begins cold (its first requests, before any authenticated or discovery request and before the process token exists, are the unauthenticated GET variants incl. Upgrade: websocket with no / an empty / a wrong authtoken on every protected row; must be refused); then every installed prefix x endpoint table x method is requested without credentials and with eleven kinds of wrong/partial credentials (must be refused - the stealth root may instead answer harmlessly, i.e. with nothing of what the authenticated discovery document says -, leak no canary, change no state) and with credentials (must not be refused for lack of auth); distinct = (configuration, method, path)",
 		run)
 }
 
